@@ -314,7 +314,29 @@ def main():
         if not line:
             continue
         job = json.loads(line)
-        if job.get("cmd") == "flags":
+        if job.get("cmd") == "flags_batch":
+            # many command lines per request; result per argv: bitmask over job["names"] or -1 (RuntimeError) or -2 (other exception)
+            outl = []
+            detail = {}
+            for k, argv in enumerate(job["argvs"]):
+                try:
+                    nmfu.ProgramData.load_commandline_flags(list(argv))
+                    mask = 0
+                    for i, name in enumerate(job["names"]):
+                        if nmfu.ProgramData._flags[nmfu.ProgramFlag[name]]:
+                            mask |= 1 << i
+                    outl.append(mask)
+                except RuntimeError as e:
+                    outl.append(-1)
+                    if len(detail) < 20:
+                        detail[k] = str(e)[:100]
+                except SystemExit:
+                    outl.append(-3)
+                except BaseException as e:
+                    outl.append(-2)
+                    detail[k] = type(e).__name__ + ": " + str(e)[:100]
+            res = {"id": job.get("id"), "codes": outl, "detail": detail}
+        elif job.get("cmd") == "flags":
             # pure flag resolution (C19): args without input file are passed verbatim
             try:
                 r = nmfu.ProgramData.load_commandline_flags(list(job["argv"]))
